@@ -44,7 +44,7 @@ def gen(chk, tier, zoo, paths):
                     evs.append(dict(op='StopContainer', ctr=dict(id=cid)))
             k = rng.random()
             if k < 0.4:
-                evs.append(dict(op='Reconfigure', config=cur_cfg, tag='same'))
+                evs.append(dict(op='Reconfigure', config='__CURRENT__', tag='same'))
             elif k < 0.6:
                 bad = rng.choice(fsgen.ta_bad_configs(m) if policy == 'topology-aware' else fsgen.bln_bad_configs(m))
                 evs.append(dict(op='Reconfigure', config=bad[1], tag='bad:' + bad[0]))
